@@ -4,7 +4,7 @@ import BSEModel.TurbomoleInst
 open Lean BSE.Drv BSE.Turbomole
 
 namespace BSE.Drv.TmDrv
-open BSE.Drv.NwchemDrv (isNumTok shellOf rshellJson errName)
+open BSE.Drv.NwchemDrv (isNumTok isIntTok shellOf rshellJson errName potOf rpotJson)
 
 def TT : TTables String := realTTables isNumTok (fun s => !s.isEmpty && s.all Char.isDigit)
 
@@ -23,7 +23,44 @@ def tlineOf (j : Json) : Except String (TLine String) := do
   else if k == "shell" then pure (.shell (← getStr j "n").toList (← getStr j "am").toList)
   else pure (.row (← getStrList j "t"))
 
+def PT : PTables String := realPTables isNumTok isIntTok
+
+def plineJson : PLine String → Json
+  | .star => obj [("k", Json.str "star")]
+  | .starish => obj [("k", Json.str "starish")]
+  | .elem s r => obj [("k", Json.str "elem"), ("sym", Json.str (String.ofList s)), ("rest", Json.str (String.ofList r))]
+  | .info n l => obj [("k", Json.str "info"), ("ncore", Json.str (String.ofList n)), ("lmax", Json.str (String.ofList l))]
+  | .title a none => obj [("k", Json.str "title"), ("am", Json.str (String.ofList a)), ("base", Json.null)]
+  | .title a (some b) => obj [("k", Json.str "title"), ("am", Json.str (String.ofList a)), ("base", Json.str (String.ofList b))]
+  | .alpha => obj [("k", Json.str "alpha")]
+  | .row ts => obj [("k", Json.str "row"), ("t", toJson ts)]
+
+def plineOf (j : Json) : Except String (PLine String) := do
+  let k ← getStr j "k"
+  if k == "star" then pure .star
+  else if k == "starish" then pure .starish
+  else if k == "elem" then pure (.elem (← getStr j "sym").toList (← getStr j "rest").toList)
+  else if k == "info" then pure (.info (← getStr j "ncore").toList (← getStr j "lmax").toList)
+  else if k == "title" then
+    let base := match j.getObjVal? "base" with | .ok (Json.str b) => some b.toList | _ => none
+    pure (.title (← getStr j "am").toList base)
+  else if k == "alpha" then pure .alpha
+  else pure (.row (← getStrList j "t"))
+
 def handlers : List (String × Handler) := [
+  ("tm_ecp_write", fun j => do
+    let name ← getStr j "name"
+    let els ← (← getArr j "els").mapM fun e => do
+      let z ← getNat e "z"
+      let nelec ← getStr e "nelec"
+      let pots ← (← getArr e "pots").mapM potOf
+      pure (z, nelec.toList, pots)
+    pure (obj [("lines", Json.arr ((ecpLinesP PT name.toList els).map plineJson).toArray)])),
+  ("tm_ecp_read", fun j => do
+    let lines ← (← getArr j "lines").mapM plineOf
+    match readEcpP PT lines with
+    | .ok r => pure (obj [("ok", Json.arr (r.map fun e => Json.arr #[toJson e.1, toJson e.2.1, Json.arr (e.2.2.map rpotJson).toArray]).toArray)])
+    | .error e => pure (obj [("raise", Json.str (errName e))])),
   ("tm_write", fun j => do
     let name ← getStr j "name"
     let els ← (← getArr j "els").mapM fun e => do
